@@ -29,3 +29,9 @@ claim('C01', 'c01_str.c',
       'and no access leaves the exact-size buffers; any history whose intermediate texts stay within the length bound is covered by induction. '
       'Stream/descriptor constructors run with the 4096-byte chunk scaled to 4 under complete/short/EINTR read schedules.',
       'DESIGN.md section 4, C01')
+claim('C07', 'c07_mbuff.c',
+      'CBMC inductive-step check: every mbuff operation from an arbitrary valid state vs an ideal byte-sequence model (all 256 byte values); file constructors over read/fread/lseek stubs (seekable or not, short reads)',
+      'For every mbuff operation, from every state shape (length, capacity slack, empty state) with symbolic bytes incl. NUL, the solver shows '
+      'bytes and length equal the ideal sequence, capacity >= length, allocation >= capacity and no access outside the exact-size buffers; '
+      'index/rindex/find report the length when absent; cmp is lexicographic with the shorter prefix first.',
+      'DESIGN.md section 4, C07')
